@@ -316,18 +316,30 @@ def run_case(case):
     elif g == "masks":
         for D in range(1, 14):
             for even in (True, False):
-                m = tu.create_alternating_binary_mask(D, even=even)
+                try:
+                    m = tu.create_alternating_binary_mask(D, even=even)
+                except Exception as e:
+                    ok(False, "create_alternating_binary_mask", "utils.alternating mask raises for a valid size", D=D, exc=repr(e)[:200])
+                    continue
                 ref = np.array([(1 if (i % 2 == 0) == even else 0) for i in range(D)], dtype=np.uint8)
                 ok(m.dtype == torch.uint8 and np.array_equal(_np(m), ref), "create_alternating_binary_mask",
                    "utils.alternating mask wrong pattern", D=D, even=even, got=_np(m).tolist())
-            m = tu.create_mid_split_binary_mask(D)
             ones = (D + 1) // 2
+            try:
+                m = tu.create_mid_split_binary_mask(D)
+            except Exception as e:
+                ok(False, "create_mid_split_binary_mask", "utils.mid-split mask raises for a valid size", D=D, exc=repr(e)[:200])
+                continue
             ref = np.array([1] * ones + [0] * (D - ones), dtype=np.uint8)
             ok(m.dtype == torch.uint8 and np.array_equal(_np(m), ref), "create_mid_split_binary_mask",
                "utils.mid-split mask wrong pattern/count", D=D, got=_np(m).tolist())
             seen = set()
             for rep in range(8):
-                m = tu.create_random_binary_mask(D)
+                try:
+                    m = tu.create_random_binary_mask(D)
+                except Exception as e:
+                    ok(False, "create_random_binary_mask", "utils.random mask raises for a valid size", D=D, exc=repr(e)[:200])
+                    break
                 mm = _np(m)
                 ok(m.dtype == torch.uint8 and mm.shape == (D,) and set(mm.tolist()) <= {0, 1} and int(mm.sum()) == ones,
                    "create_random_binary_mask", "utils.random mask wrong count/values", D=D, got=mm.tolist())
